@@ -253,3 +253,30 @@ def origin_calls(fn, x, passthrough=IDENTITY_CALLS):
 
 def from_upvar(fn, x, name, passthrough=IDENTITY_CALLS):
     return any(a.kind == "upvar" and a.data == name for a in origins(fn, x, passthrough))
+
+
+def format_inputs(fn, term, passthrough=IDENTITY_CALLS):
+    """For a call to core::fmt::Arguments::new (what format_args! lowers to in this toolchain):
+    returns (literal piece constant as printed, [origin atom set of each formatted argument])."""
+    pieces = ""
+    for a in origins(fn, term.args[0], passthrough):
+        if a.kind == "const":
+            pieces += a.data.get("v", "")
+    inputs = []
+    if len(term.args) > 1:
+        for a in origins(fn, term.args[1], passthrough):
+            if a.kind != "agg":
+                continue
+            st = fn.blocks[a.data[0]].stmts[a.data[1]]
+            for op in st.rv.ops:
+                got = set()
+                for b in origins(fn, op, passthrough):
+                    if b.kind == "call":
+                        ct = fn.blocks[b.data].term
+                        if ct.callee.is_("core::fmt::rt::Argument::new_display", "core::fmt::rt::Argument::new_debug",
+                                         "core::fmt::rt::Argument::new_lower_hex") and ct.args:
+                            got |= origins(fn, ct.args[0], passthrough)
+                            continue
+                    got.add(b)
+                inputs.append(got)
+    return pieces, inputs
